@@ -637,6 +637,8 @@ package fs
 //@   ensures[C08] err == nil ==> builtBefore(viso.rootDir, pidx(item) + 1, joliet) @records-built-so-far-fit-their-fields
 //@   ensures err == nil ==> (forall y {at(viso.rootDir, y).dirEntry.$len} {at(viso.rootDir, y).dirEntryJoliet.$len} :: pidx(item) < y && y < end(viso.rootDir) ==> len(at(viso.rootDir, y).dirEntry) == old(len(at(viso.rootDir, y).dirEntry)) && len(at(viso.rootDir, y).dirEntryJoliet) == old(len(at(viso.rootDir, y).dirEntryJoliet))) @later-directories-untouched
 //@   ensures err == nil && joliet ==> builtBefore(viso.rootDir, end(viso.rootDir), false) @iso-records-still-fit
+//@   ensures err == nil && joliet ==> recOwner[item.dirEntryJoliet.$arr] == 2 * pidx(item) + 1 && (forall y {recOwner[at(viso.rootDir, y).dirEntryJoliet.$arr]} {at(viso.rootDir, y).dirEntryJoliet.$arr} :: base(viso.rootDir) <= y && y < end(viso.rootDir) && y != pidx(item) ==> recOwner[at(viso.rootDir, y).dirEntryJoliet.$arr] == old(recOwner[at(viso.rootDir, y).dirEntryJoliet.$arr])) && (forall y {recOwner[at(viso.rootDir, y).dirEntry.$arr]} {at(viso.rootDir, y).dirEntry.$arr} :: base(viso.rootDir) <= y && y < end(viso.rootDir) ==> recOwner[at(viso.rootDir, y).dirEntry.$arr] == old(recOwner[at(viso.rootDir, y).dirEntry.$arr])) @owners-of-the-other-arrays-kept
+//@   ensures err == nil && !joliet ==> recOwner[item.dirEntry.$arr] == 2 * pidx(item) && (forall y {recOwner[at(viso.rootDir, y).dirEntry.$arr]} {at(viso.rootDir, y).dirEntry.$arr} :: base(viso.rootDir) <= y && y < end(viso.rootDir) && y != pidx(item) ==> recOwner[at(viso.rootDir, y).dirEntry.$arr] == old(recOwner[at(viso.rootDir, y).dirEntry.$arr])) @owners-of-the-other-iso-arrays-kept
 //@   ensures err == nil && joliet ==> (forall y {at(viso.rootDir, y).dirEntry.$arr} {at(viso.rootDir, y).dirEntry.$len} :: base(viso.rootDir) <= y && y < end(viso.rootDir) ==> at(viso.rootDir, y).dirEntry == old(at(viso.rootDir, y).dirEntry) && at(viso.rootDir, y).dirEntry.$arr != item.dirEntryJoliet.$arr) @iso-slices-kept-and-not-the-new-array
 //@   ensures err == nil && joliet ==> (forall y {at(viso.rootDir, y).dirEntryJoliet.$arr} {at(viso.rootDir, y).dirEntryJoliet.$len} :: base(viso.rootDir) <= y && y < end(viso.rootDir) && y != pidx(item) ==> at(viso.rootDir, y).dirEntryJoliet == old(at(viso.rootDir, y).dirEntryJoliet) && at(viso.rootDir, y).dirEntryJoliet.$arr != item.dirEntryJoliet.$arr) @other-joliet-slices-kept-and-not-the-new-array
 //@   ensures err == nil && !joliet ==> (forall y {at(viso.rootDir, y).dirEntry.$arr} {at(viso.rootDir, y).dirEntry.$len} :: base(viso.rootDir) <= y && y < end(viso.rootDir) && y != pidx(item) ==> at(viso.rootDir, y).dirEntry == old(at(viso.rootDir, y).dirEntry) && at(viso.rootDir, y).dirEntry.$arr != item.dirEntry.$arr) @other-iso-slices-kept-and-not-the-new-array
@@ -733,11 +735,11 @@ package fs
 //@   ensures[C08] err == nil ==> viso.volumeDescriptors[0].Primary.VolumeSpaceSize == viso.volumeSizeSectors && viso.volumeDescriptors[1].Primary.VolumeSpaceSize == viso.volumeSizeSectors @descriptors-announce-the-volume-size
 //@   loop 1 invariant 0 <= i && i <= len(viso.rootDir) && viso.rootDir == pre(viso.rootDir) && builtBefore(viso.rootDir, base(viso.rootDir) + i, false) && namesShort(viso.rootDir) && iofaults >= old(iofaults) @iso-pass
 //@   loop 1 invariant forall y {at(viso.rootDir, y).dirEntry.$len} {at(viso.rootDir, y).dirEntryJoliet.$len} {at(viso.rootDir, y).files.$arr} :: base(viso.rootDir) <= y && y < end(viso.rootDir) ==> filesScanned(at(viso.rootDir, y).files) && len(at(viso.rootDir, y).dirEntryJoliet) == 0 && (y >= base(viso.rootDir) + i ==> len(at(viso.rootDir, y).dirEntry) == 0) @rest-as-scanned
-//@   loop 1 invariant forall y {at(viso.rootDir, y).dirEntry.$arr} :: base(viso.rootDir) <= y && y < base(viso.rootDir) + i ==> recOwner[at(viso.rootDir, y).dirEntry.$arr] == 2 * y @record-arrays-owned
+//@   loop 1 invariant forall y {recOwner[at(viso.rootDir, y).dirEntry.$arr]} {at(viso.rootDir, y).dirEntry.$arr} :: base(viso.rootDir) <= y && y < base(viso.rootDir) + i ==> recOwner[at(viso.rootDir, y).dirEntry.$arr] == 2 * y @record-arrays-owned
 //@   loop 2 invariant 0 <= i && i <= len(viso.rootDir) && viso.rootDir == pre(viso.rootDir) && builtBefore(viso.rootDir, end(viso.rootDir), false) && builtBefore(viso.rootDir, base(viso.rootDir) + i, true) && namesShort(viso.rootDir) && iofaults >= old(iofaults) @joliet-pass
 //@   loop 2 invariant forall y {at(viso.rootDir, y).dirEntryJoliet.$len} {at(viso.rootDir, y).files.$arr} :: base(viso.rootDir) <= y && y < end(viso.rootDir) ==> filesScanned(at(viso.rootDir, y).files) && (y >= base(viso.rootDir) + i ==> len(at(viso.rootDir, y).dirEntryJoliet) == 0) @rest-as-scanned
-//@   loop 2 invariant forall y {at(viso.rootDir, y).dirEntry.$arr} :: base(viso.rootDir) <= y && y < end(viso.rootDir) ==> recOwner[at(viso.rootDir, y).dirEntry.$arr] == 2 * y @iso-record-arrays-owned
-//@   loop 2 invariant forall y {at(viso.rootDir, y).dirEntryJoliet.$arr} :: base(viso.rootDir) <= y && y < base(viso.rootDir) + i ==> recOwner[at(viso.rootDir, y).dirEntryJoliet.$arr] == 2 * y + 1 @joliet-record-arrays-owned
+//@   loop 2 invariant forall y {recOwner[at(viso.rootDir, y).dirEntry.$arr]} {at(viso.rootDir, y).dirEntry.$arr} :: base(viso.rootDir) <= y && y < end(viso.rootDir) ==> recOwner[at(viso.rootDir, y).dirEntry.$arr] == 2 * y @iso-record-arrays-owned
+//@   loop 2 invariant forall y {recOwner[at(viso.rootDir, y).dirEntryJoliet.$arr]} {at(viso.rootDir, y).dirEntryJoliet.$arr} :: base(viso.rootDir) <= y && y < base(viso.rootDir) + i ==> recOwner[at(viso.rootDir, y).dirEntryJoliet.$arr] == 2 * y + 1 @joliet-record-arrays-owned
 
 //@ pred built(viso *VirtualISO) := len(viso.fsBuf) % 2048 == 0 && len(viso.fsBuf) >= 40960 && hdrsWritten(viso) && (viso.ps3Mode ==> ps3Written(viso)) && viso.totalSize == 2048 * viso.volumeSizeSectors && viso.volumeSizeSectors % 32 == 0 && viso.totalSize == viso.padAreaStart + viso.padAreaSize && viso.padAreaSize >= 65536 && viso.volumeDescriptors[0].Primary.VolumeSpaceSize == viso.volumeSizeSectors && viso.volumeDescriptors[1].Primary.VolumeSpaceSize == viso.volumeSizeSectors
 
